@@ -46,9 +46,96 @@ fn with(base: &[(Kd, u32)], extra: &[(Kd, u32)], rng: &mut Rng) -> Vec<(Kd, u32)
     w
 }
 
+pub const TABLE_CORE: &[(Kd, u32)] = &[
+    (Kd::TInsertUnique, 30),
+    (Kd::TFindEntry, 14),
+    (Kd::TFind, 8),
+    (Kd::TFindMut, 4),
+    (Kd::TRemoveReinsert, 6),
+    (Kd::TEntry, 10),
+    (Kd::TIterHash, 6),
+    (Kd::TIterHashMut, 3),
+    (Kd::TGetMany, 4),
+    (Kd::Clear, 1),
+    (Kd::Reserve, 2),
+    (Kd::ShrinkTo, 2),
+    (Kd::ShrinkToFit, 1),
+    (Kd::Retain, 2),
+    (Kd::ExtractIf, 2),
+    (Kd::Drain, 1),
+    (Kd::Iter, 3),
+    (Kd::IntoIter, 1),
+    (Kd::CloneTo, 1),
+    (Kd::CloneFrom, 1),
+    (Kd::WithCapacity, 1),
+    (Kd::New, 1),
+    (Kd::FillNoAlloc, 1),
+];
+const TABLE_BUILD: &[(Kd, u32)] = &[(Kd::TInsertUnique, 30), (Kd::TFindEntry, 14), (Kd::TFind, 2), (Kd::TEntry, 3), (Kd::Clear, 1), (Kd::Reserve, 1), (Kd::ShrinkTo, 1), (Kd::WithCapacity, 1), (Kd::Retain, 1)];
+const TABLE_WORLDS: &[(&str, u32)] = &[("T24", 6), ("Tzd", 1), ("Tzp", 1)];
+
+/// The HashTable variant of a property's profile (None: the property has no table part).
+fn table_spec(prop: &str, thorough: bool, rng: &mut Rng, universe: u32, n_ops: usize) -> Option<RunSpec> {
+    let world = pick_world(rng, TABLE_WORLDS);
+    let mut cfg = base_cfg(rng, 3);
+    let mut n_ops = n_ops;
+    let mut g = match prop {
+        "C06" => gen(Family::Table, universe, swarm(rng, TABLE_CORE)),
+        "C02" => {
+            let mut g = gen(Family::Table, universe, with(TABLE_CORE, &[(Kd::Iter, 8), (Kd::IntoIter, 8), (Kd::Drain, 8), (Kd::ExtractIf, 8), (Kd::TEntry, 6), (Kd::TGetMany, 3)], rng));
+            g.allow_forget = true;
+            g
+        }
+        "C03" => gen(Family::Table, universe, with(TABLE_BUILD, &[(Kd::IntoIter, 8), (Kd::Drain, 6), (Kd::ExtractIf, 6), (Kd::Retain, 4), (Kd::Clear, 2), (Kd::CloneFrom, 6), (Kd::CloneTo, 2), (Kd::ShrinkTo, 3), (Kd::New, 3), (Kd::DropSlot, 2), (Kd::TRemoveReinsert, 4), (Kd::TEntry, 4)], rng)),
+        "C04" => {
+            n_ops = rng.range(8, if thorough { 120 } else { 80 }) as usize;
+            gen(Family::Table, *rng.pick(&[12u32, 40, 64, 100]), with(TABLE_CORE, &[(Kd::CloneFrom, 4), (Kd::ExtractIf, 3), (Kd::Retain, 3), (Kd::FillNoAlloc, 2), (Kd::Reserve, 3), (Kd::ShrinkTo, 3)], rng))
+        }
+        "C05" => {
+            cfg.functional = 0;
+            cfg.callback_cap = 1_000_000;
+            cfg.plans = (0..3).map(|_| if rng.below(2) == 0 { Plan::random_byz(rng) } else { Plan::random(rng) }).collect();
+            cfg.eq_mode = *rng.pick(&[EqMode::Lawful, EqMode::Random, EqMode::AlwaysTrue, EqMode::AlwaysFalse, EqMode::Asym]);
+            gen(Family::Table, universe.min(200), with(TABLE_CORE, &[(Kd::TGetMany, 6), (Kd::Drain, 3), (Kd::FillNoAlloc, 2)], rng))
+        }
+        "C08" => gen(Family::Table, universe, with(TABLE_BUILD, &[(Kd::WithCapacity, 6), (Kd::New, 2), (Kd::DropSlot, 2), (Kd::Reserve, 8), (Kd::FillNoAlloc, 8), (Kd::Clear, 4), (Kd::Drain, 4), (Kd::ShrinkTo, 8), (Kd::ShrinkToFit, 4)], rng)),
+        "C09" => gen(Family::Table, universe, with(TABLE_BUILD, &[(Kd::Iter, 30), (Kd::IntoIter, 8), (Kd::Drain, 8), (Kd::TIterHash, 6)], rng)),
+        "C10" => {
+            let mut g = gen(Family::Table, universe, with(TABLE_BUILD, &[(Kd::Retain, 14), (Kd::ExtractIf, 16), (Kd::Drain, 12)], rng));
+            g.toggle_pct = 60;
+            g
+        }
+        "C12" => {
+            let mut g = gen(Family::Table, universe, with(TABLE_BUILD, &[(Kd::TryReserve, 30)], rng));
+            g.refusals = true;
+            g.huge_reserve = true;
+            g
+        }
+        "C15" => gen(Family::Table, universe.min(64), with(TABLE_BUILD, &[(Kd::TGetMany, 36)], rng)),
+        _ => return None,
+    };
+    g.macro_den = *rng.pick(&[8, 15, 30]);
+    Some(RunSpec { world, cfg, gen: g, n_ops })
+}
+
+/// Share (percent) of a property's runs that go to the HashTable worlds.
+fn table_share(prop: &str) -> u64 {
+    match prop {
+        "C06" => 100,
+        "C02" | "C03" | "C04" | "C05" | "C08" | "C09" | "C10" | "C12" | "C15" => 25,
+        _ => 0,
+    }
+}
+
 /// Builds the run specification of one simulated run of `prop`.
 pub fn spec_for(prop: &str, thorough: bool, rng: &mut Rng) -> RunSpec {
     let universe = universe_for(rng, thorough);
+    if rng.below(100) < table_share(prop) {
+        let n_ops = if thorough { rng.range(10, 400) } else { rng.range(10, 220) } as usize;
+        if let Some(s) = table_spec(prop, thorough, rng, universe, n_ops) {
+            return s;
+        }
+    }
     let n_ops = if thorough { rng.range(10, 400) } else { rng.range(10, 220) } as usize;
     match prop {
         "C01" => {
@@ -220,6 +307,7 @@ pub fn owns(prop: &str, v: &Violation) -> bool {
         "C03" => starts(c, "ledger/") || starts(c, "alloc/leak") || starts(c, "alloc/double-free") || starts(c, "alloc/bad-free") || starts(c, "alloc/layout-mismatch") || starts(c, "alloc/size-mismatch") || starts(c, "cap/alloc-on-new"),
         "C04" => starts(c, "postpanic/") || safety || starts(c, "alloc/") || starts(c, "ledger/"),
         "C05" => safety || starts(c, "diverge/") || starts(c, "byz/") || starts(c, "ledger/") || starts(c, "alloc/") || starts(c, "getmany/alias") || starts(c, "panic/"),
+        "C06" => functional || starts(c, "entry/") || starts(c, "iterhash/") || starts(c, "reinsert/") || starts(c, "retain/") || starts(c, "extract/") || starts(c, "drain/yield") || starts(c, "getmany/"),
         "C08" => starts(c, "cap/") || starts(c, "drain/allocation") || starts(c, "alloc/size-mismatch"),
         "C09" => starts(c, "iter/") || starts(c, "iterlen/") || (functional && ["Iter", "IntoIter", "SetIter", "TIter"].contains(&k)),
         "C10" => starts(c, "retain/") || starts(c, "extract/") || starts(c, "drain/") || (functional && ["Retain", "ExtractIf", "Drain"].contains(&k)),
